@@ -4,6 +4,7 @@
   every stored result.
 -/
 import AgpTpf.Proofs.C02KRes
+import AgpTpf.Proofs.C02KSafe
 import AgpTpf.Proofs.C09RFixed
 import AgpTpf.Proofs.C01MiddleBase
 namespace AgpTpf.C02
@@ -39,15 +40,15 @@ theorem KInv.congr {src : List Row} {M s0 e0 : Int} {p : Fragment} {o o' : Overl
     and satisfies `KInv` (relative to the span of the fresh lookup result) and `RGeo` -/
 def RRes (input : List Scaffold) (err : Int) (o : OverlapResult) : Prop :=
   ∃ sc o0, sc ∈ input ∧ sc.name = o.bait.name ∧ findOverlaps sc.rows o.bait = .ok (some o0) ∧
-    KInv sc.rows (3 * err) o0.start o0.stop o.bait o ∧ RGeo sc.rows o
+    KInv sc.rows (3 * err) o0.start o0.stop o.bait o ∧ RGeo sc.rows o ∧ SafeKept sc.rows err (3 * err) o
 
 def StoreR (input : List Scaffold) (err : Int) (store : List Res) : Prop := ∀ r ∈ store, RRes input err r.o
 
 theorem RRes.congr {input : List Scaffold} {err : Int} {o o' : OverlapResult} (h : RRes input err o)
     (hr : o'.rows = o.rows) (hs : o'.start = o.start) (he : o'.stop = o.stop) (hb : o'.bait = o.bait) :
     RRes input err o' := by
-  obtain ⟨sc, o0, h1, h2, h3, h4, h5⟩ := h
-  refine ⟨sc, o0, h1, by rw [hb]; exact h2, by rw [hb]; exact h3, ?_, h5.congr hr hs hb⟩
+  obtain ⟨sc, o0, h1, h2, h3, h4, h5, h6⟩ := h
+  refine ⟨sc, o0, h1, by rw [hb]; exact h2, by rw [hb]; exact h3, ?_, h5.congr hr hs hb, h6.congr hs he hb⟩
   rw [hb]; exact h4.congr hr hs he hb
 
 def core4 (r : Res) : Fragment × List Row × Int × Int := (r.o.bait, r.o.rows, r.o.start, r.o.stop)
@@ -95,6 +96,7 @@ theorem processBait_storeR {input : List Scaffold} (hwf : WFInput input) (hnn : 
         have hd := ids_nodup_of_wf hwf hscin
         have hK0 := kinv_lookup (3 * b.err) hd hfo
         have hG0 := rgeo_lookup (hnn sc hscin) hd hfo
+        have hS0 := safeKept_lookup b.err (3 * b.err) (hnn sc hscin) hfo
         have hb0 : o0.bait = bait := hK0.bait
         split at h
         · cases h
@@ -109,9 +111,10 @@ theorem processBait_storeR {input : List Scaffold} (hwf : WFInput input) (hnn : 
             have hG1 : RGeo sc.rows o1 := hG0.congr hr1 hs1 hb1
             have hK2 := kinv_trimLarge (hnn sc hscin) herr hK1 ho2
             have hG2 := hG1.trimLarge ho2
+            have hS2 := safeKept_trimLarge (hnn sc hscin) hK1.inv hG1 (hS0.congr hs1 he1 hb1) ho2
             have hb2 : o2.bait = bait := hK2.bait
             have hok : RRes input b.err o2 := by
-              refine ⟨sc, o0, hscin, by rw [hb2]; exact hname, by rw [hb2]; exact hfo, ?_, hG2⟩
+              refine ⟨sc, o0, hscin, by rw [hb2]; exact hname, by rw [hb2]; exact hfo, ?_, hG2, hS2⟩
               rw [hb2]; exact hK2
             split at h
             · simp only [pure, Except.pure, Except.ok.injEq] at h
